@@ -382,8 +382,13 @@ def b_brng_hmac(lib, rng, L, frags, reloc):
         raise Harness("brngHMACRand failed")
     want = lib.rd(d, L)
     st = St(lib, lib.brngHMAC_keep())
-    ivp = lib.mk(iv)   # the caller keeps iv alive and in place: only the state is relocated
+    ivp = lib.mk(iv)
     lib.brngHMACStart(st.p, lib.mk(key), klen, ivp, ivlen)
+    if ivlen <= 64:
+        # brng.h: for iv_len <= 64 the content of iv is saved in the state, so the caller may discard its buffer
+        ctypes.memset(ivp, 0xEE, ivlen)
+        lib.free_one(ivp)
+    # (for iv_len > 64 the caller keeps iv alive and in place: only the state is relocated)
     got = b""
     for f, pos in _walk(frags):
         _maybe_reloc(st, rng, reloc)
@@ -391,6 +396,31 @@ def b_brng_hmac(lib, rng, L, frags, reloc):
         lib.brngHMACStepR(b, f, st.p)
         got += lib.rd(b, f)
     return ([] if got == want else ["output"]), dict(key=key, iv=iv, want=want, got=got, ivlen=ivlen)
+
+
+def b_fmt(lib, rng, n, reloc):
+    """one FMT state, several strings with changing synchro values (incl. NULL) == the one-shot function each time"""
+    klen = rng.choice([16, 24, 32])
+    key = rb(rng, klen)
+    mod = rng.choice([2, 10, 58, 256, 1000, 65536])
+    count = rng.choice([2, 3, 9, 17, 21, 25, 40])
+    st = St(lib, lib.beltFMT_keep(mod, count))
+    lib.beltFMTStart(st.p, mod, count, lib.mk(key), klen)
+    bad = []
+    for i in range(n):
+        src = b"".join(rng.randrange(mod).to_bytes(2, "little") for _ in range(count))
+        iv = None if rng.random() < 0.4 else rb(rng, 16)
+        dec = rng.random() < 0.4
+        d = lib.alloc(2 * count)
+        r = (lib.beltFMTDecr if dec else lib.beltFMTEncr)(d, mod, lib.mk(src), count, lib.mk(key), klen, lib.mk(iv) if iv is not None else 0)
+        if r != ERR_OK:
+            raise Harness("beltFMT one-shot failed")
+        _maybe_reloc(st, rng, reloc)
+        b = lib.mk(src)
+        (lib.beltFMTStepD if dec else lib.beltFMTStepE)(b, lib.mk(iv) if iv is not None else 0, st.p)
+        if lib.rd(b, 2 * count) != lib.rd(d, 2 * count):
+            bad.append("string-after-%s-iv" % ("null" if iv is None else "explicit"))
+    return bad, dict(key=key, mod=mod, count=count)
 
 
 def b_hotp(lib, rng, n, reloc):
@@ -629,6 +659,11 @@ def unit_scripts(ctx):
             if not ctx.case(desc, "sectors" + ("+reloc" if reloc else "")):
                 continue
             bad, det = b_sde(lib, r, desc["n"], reloc)
+        elif which == "FMT":
+            desc = dict(b=which, n=r.randrange(2, 7), reloc=reloc, seed=s)
+            if not ctx.case(desc, "fmt-strings" + ("+reloc" if reloc else "")):
+                continue
+            bad, det = b_fmt(lib, r, desc["n"], reloc)
         elif which == "KRP":
             desc = dict(b=which, n=r.randrange(1, 6), reloc=reloc, seed=s)
             if not ctx.case(desc, "derive" + ("+reloc" if reloc else "")):
@@ -671,7 +706,7 @@ def unit_scripts(ctx):
         lib.release()
 
 
-BUNDLES = ["CFB", "CTR", "ECB", "CBC", "BDE", "MAC", "Hash", "HMAC", "bashHash", "DWP", "CHE", "SDE", "KRP",
+BUNDLES = ["CFB", "CTR", "ECB", "CBC", "BDE", "MAC", "Hash", "HMAC", "bashHash", "DWP", "CHE", "SDE", "KRP", "FMT",
            "brngCTR", "brngHMAC", "HOTP", "TOTP", "OCRA", "prgAbsorb", "prgSqueeze", "prgEncr", "prgDecr"]
 
 
@@ -680,7 +715,7 @@ def jobs(tier, scale=1.0):
     n = max(50, int(n * scale))
     js = []
     for b in BUNDLES:
-        k = n // 4 if b in ("HOTP", "TOTP", "OCRA", "SDE", "KRP", "DWP", "CHE") else n
+        k = n // 4 if b in ("HOTP", "TOTP", "OCRA", "SDE", "KRP", "DWP", "CHE", "FMT") else n
         reps = 1 if tier == "quick" else 3
         for c in range(reps):
             js.append({"unit": "c10:unit_scripts", "params": {"bundle": b, "n": k // reps, "chunk": c,
